@@ -76,6 +76,13 @@ def gen_macro_cases(thorough):
                 (["t(x,y) x ## y ## x"], "t(a,b) t(1,2) t(,) t(a,)")]
     for defs, use in specials:
         out.append(("special %s" % use, case_text(defs, use)))
+    # chains of object-like macros whose replacement ends (or starts) with the name of a function-like macro that takes its arguments from the text behind the chain
+    for depth in range(1, 6):
+        for shape in ("%s", "+ %s", "%s +", "(%s)", "%s %s"):
+            defs = ["g(x) [x]", "m1 " + (shape % (("g",) * shape.count("%s")))] + ["m%d %s" % (k, shape % (("m%d" % (k - 1),) * shape.count("%s"))) for k in range(2, depth + 1)]
+            top = "m%d" % depth
+            for use in ("%s(3)", "%s (4) %s(5)", "%s", "%s(%s(6))", "(%s)(7)", "%s()", "g(%s)(8)", "%s(1)(2)"):
+                out.append(("chain depth=%d shape=[%s] use=%s" % (depth, shape, use), case_text(defs, use % ((top,) * use.count("%s")))))
     return out
 
 
